@@ -71,7 +71,7 @@ def showKind : PanicKind → String
 def showFile : SrcFile → String
   | .smbus => "smbus.rs" | .traits => "mctp_traits.rs" | .control => "control_packet.rs"
   | .proto => "smbus_proto.rs" | .base => "base_packet.rs" | .request => "smbus_request.rs"
-  | .response => "smbus_response.rs"
+  | .response => "smbus_response.rs" | .vendor => "vendor_packets.rs"
 
 def showPanic (p : Panic) : String := s!"panic {showKind p.kind} {showFile p.file}"
 
@@ -176,6 +176,13 @@ def ccName : CC → String
   | .errorInvalidLength => "ErrorInvalidLength" | .errorNotReady => "ErrorNotReady"
   | .errorUnsupportedCmd => "ErrorUnsupportedCmd"
 
+/-- the source file that declares the view (where a `bitfield!`-generated accessor panics) -/
+def fileOfView (s : String) : SrcFile :=
+  if s.startsWith "smbus." || s.startsWith "routing." then .proto
+  else if s.startsWith "transport." || s.startsWith "body." then .base
+  else if s.startsWith "ctrl." then .control
+  else .vendor
+
 def fieldOf (s : String) : Option Field :=
   match s with
   | "smbus.dest_read_write" => some SMBusHdr.destReadWrite
@@ -228,7 +235,7 @@ def parseFile (s : String) : Option SrcFile :=
   match s with
   | "smbus.rs" => some .smbus | "mctp_traits.rs" => some .traits | "control_packet.rs" => some .control
   | "smbus_proto.rs" => some .proto | "base_packet.rs" => some .base | "smbus_request.rs" => some .request
-  | "smbus_response.rs" => some .response | _ => none
+  | "smbus_response.rs" => some .response | "vendor_packets.rs" => some .vendor | _ => none
 
 /-- a panic in a file the model does not know is mapped to a value no finding class uses -/
 def parsePanic (k f : String) : Panic :=
@@ -524,13 +531,21 @@ def handle (st : St) (line : String) : St × String :=
         return s
       (st.put id ⟨c', spec'⟩, ans)
     | _, _, _, _, _ => (st, "bad-op")
-  | ["view", "get", f, raw] =>
-    match fieldOf f, parseBytes raw with
-    | some f, some r => (st, s!"{f.get r}")
+  | ["view", "get", fname, raw] =>
+    match fieldOf fname, parseBytes raw with
+    | some f, some r =>
+      match f.getC (fileOfView fname) r with
+      | .ok v => (st, s!"{v}")
+      | .err _ => (st, "bad-op")
+      | .panic p => (st, showPanic p)
     | _, _ => (st, "bad-op")
-  | ["view", "set", f, v, raw] =>
-    match fieldOf f, parseHexNat v, parseBytes raw with
-    | some f, some v, some r => (st, hexBytes (f.set r v))
+  | ["view", "set", fname, v, raw] =>
+    match fieldOf fname, parseHexNat v, parseBytes raw with
+    | some f, some v, some r =>
+      match f.setC (fileOfView fname) r v with
+      | .ok b => (st, hexBytes b)
+      | .err _ => (st, "bad-op")
+      | .panic p => (st, showPanic p)
     | _, _, _ => (st, "bad-op")
   | ["view", "tfb", raw, ver] =>
     match parseBytes raw, parseByte ver with
